@@ -15,6 +15,13 @@ package corr
 //   write ssrc=<u32> seq=<u16> ts=<u32> len=<n> dt=<ns>   advance the clock by dt, then write one packet
 //   tick dt=<ns>                              advance the clock by dt, then deliver one tick
 //   unbind ssrc=<u32>                         UnbindLocalStream
+//   stale ssrc=<u32> k=<n> seq= ts= len= dt=  advance the clock by dt, then write one packet through a STALE handle: the
+//                                             RTPWriter returned by an earlier BindLocalStream of this SSRC whose stream
+//                                             has since been unbound or replaced by a new bind (the k-th such handle,
+//                                             modulo their number; `bad-op` when there is none).  A pacer draining its
+//                                             queue or a retransmission in flight does exactly this.  The reports of
+//                                             the CURRENT binding count what was written through the current binding:
+//                                             for the model the op only lets time pass.
 // output: per tick, one line per stream sorted by SSRC: `sr ssrc= ntp= rtp= pc= oc=`.
 //
 // The ambient of a case (first op `amb …`, ambient_test.go): the interceptor sits in a chain with transparent, silent
@@ -59,6 +66,7 @@ func c07Run(t *testing.T, ops []string, o *Out) {
 			mu      sync.Mutex
 			pending []*rtcp.SenderReport
 			writers = map[uint32]interceptor.RTPWriter{}
+			retired = map[uint32][]interceptor.RTPWriter{} // handles of earlier bindings, per SSRC, oldest first
 		)
 		defer func() {
 			if icpt != nil {
@@ -128,6 +136,9 @@ func c07Run(t *testing.T, ops []string, o *Out) {
 				// the chain hands ONE *StreamInfo to every member: what the sender interceptor reads from it (the clock rate,
 				// 0 = "not announced" included) must be what the caller wrote, and the caller's struct comes back unedited
 				info := &interceptor.StreamInfo{SSRC: ssrc, ClockRate: uint32(atoi(m["rate"]))}
+				if w, ok := writers[ssrc]; ok {
+					retired[ssrc] = append(retired[ssrc], w) // the application may still hold (and use) the old handle
+				}
 				o.InfoGuard("BindLocalStream", info, func() {
 					writers[ssrc] = icpt.BindLocalStream(info,
 						interceptor.RTPWriterFunc(func(*rtp.Header, []byte, interceptor.Attributes) (int, error) { return 0, o.RTPWriteErr() }))
@@ -167,7 +178,20 @@ func c07Run(t *testing.T, ops []string, o *Out) {
 				}
 				info := &interceptor.StreamInfo{SSRC: ssrc}
 				o.InfoGuard("UnbindLocalStream", info, func() { icpt.UnbindLocalStream(info) })
-				delete(writers, ssrc) // later writes to the orphaned stream are unobservable: not part of the protocol
+				retired[ssrc] = append(retired[ssrc], writers[ssrc])
+				delete(writers, ssrc) // later writes through the orphaned handle: op `stale`
+			case name == "stale" && need("ssrc", "k", "seq", "ts", "len", "dt"):
+				ssrc := uint32(atoi(m["ssrc"]))
+				old := retired[ssrc]
+				if len(old) == 0 {
+					o.P("bad-op")
+					continue
+				}
+				c07Sleep(atoi(m["dt"]))
+				h := &rtp.Header{Version: 2, SequenceNumber: uint16(atoi(m["seq"])), Timestamp: uint32(atoi(m["ts"])), SSRC: ssrc}
+				if _, err := old[atoi(m["k"])%len(old)].Write(h, make([]byte, atoi(m["len"])), o.Attrs(interceptor.Attributes{})); err != nil && !errors.Is(err, errAmbWrite) {
+					panic(err)
+				}
 			default:
 				o.P("bad-op")
 			}
@@ -223,7 +247,7 @@ func c07Gen(r *Rng, tier string, idx int) Case {
 
 func c07GenPlain(r *Rng, tier string, idx int) Case {
 	classes := []string{"inorder", "seqwrap", "ooo", "frames", "tswrap", "ts0first", "payload", "rates",
-		"multi", "tickfirst", "rebind", "longgap", "mixed", "writefail"}
+		"multi", "tickfirst", "rebind", "longgap", "mixed", "stale", "writefail"}
 	class := classes[idx%len(classes)]
 	cl := class
 	if cl == "writefail" { // traffic of one of the other classes over a transport that refuses some RTP writes
@@ -250,8 +274,18 @@ func c07GenPlain(r *Rng, tier string, idx int) Case {
 	dts := []int{0, 0, 1, 999, 1000000, 20000000, 33333333, 999999999, 1000000000, 1000000001, 5000000000}
 	ops := []string{}
 	nstreams := 1
-	if cl == "multi" || cl == "mixed" {
+	if cl == "multi" || cl == "mixed" || cl == "stale" {
 		nstreams = r.Range(1, 3)
+	}
+	// class `stale` (and now and then `rebind`, `mixed`): a stream is replaced (UnbindLocalStream + BindLocalStream of the
+	// same SSRC, or a second Bind alone) while the application still holds the writer of the first binding and uses it
+	// for late packets; "packet count = number of RTP packets written on that stream" is about the stream of the
+	// CURRENT binding, so those packets change no report.  Their sequence numbers / timestamps lie before, inside and
+	// ahead of what the new binding sends.
+	hasStale := map[int]bool{}
+	staleOp := func(ssrc, seq, ts int) string {
+		return fmt.Sprintf("stale ssrc=%d k=%d seq=%d ts=%d len=%d dt=%d", ssrc, r.Intn(4), seq&0xFFFF, ts, r.Pick(0, 1, 100, 1200, 1460),
+			r.Pick(0, 0, 1, 999, 1000000, 20000000, 1000000000))
 	}
 	type st struct{ ssrc, rate, seq, ts, tsStep int }
 	streams := []*st{}
@@ -323,14 +357,42 @@ func c07GenPlain(r *Rng, tier string, idx int) Case {
 			seq, ts = s.seq, s.ts
 		}
 		ops = append(ops, fmt.Sprintf("write ssrc=%d seq=%d ts=%d len=%d dt=%d", s.ssrc, seq, ts, ln, dt))
+		if hasStale[s.ssrc] && (cl == "stale" || r.Chance(1, 3)) {
+			for k := r.Pick(0, 1, 1, 2, 3); k > 0; k-- {
+				// the late packet continues the OLD numbering (anything), or would be the next / an older / a far
+				// newer packet of the new binding
+				ops = append(ops, staleOp(s.ssrc, s.seq+r.Pick(1, 1, 2, 0, 65535, 65436, 100, 32767, 32768, 40000),
+					(s.ts+r.Pick(0, s.tsStep, 3000, (1<<32)-3000, 1<<31))%(1<<32)))
+			}
+		}
 		if r.Chance(1, 4) {
 			ops = append(ops, fmt.Sprintf("tick dt=%d", dts[r.Intn(len(dts))]))
 		}
-		if cl == "rebind" && r.Chance(1, 8) {
+		if (cl == "rebind" && r.Chance(1, 8)) || (cl == "stale" && r.Chance(1, 4)) || (cl == "mixed" && r.Chance(1, 16)) {
 			if r.Bool() {
 				ops = append(ops, fmt.Sprintf("unbind ssrc=%d", s.ssrc), fmt.Sprintf("tick dt=%d", dts[r.Intn(len(dts))]))
+				if cl == "stale" && r.Bool() {
+					ops = append(ops, staleOp(s.ssrc, s.seq+1, s.ts), fmt.Sprintf("tick dt=%d", dts[r.Intn(len(dts))]))
+				}
 			}
-			ops = append(ops, fmt.Sprintf("bind ssrc=%d rate=%d latest=%d", s.ssrc, rates[r.Intn(len(rates))], latest))
+			rate := rates[r.Intn(len(rates))]
+			if cl == "stale" && r.Chance(2, 3) {
+				rate = s.rate
+			}
+			ops = append(ops, fmt.Sprintf("bind ssrc=%d rate=%d latest=%d", s.ssrc, rate, latest))
+			hasStale[s.ssrc] = true
+			if cl == "stale" {
+				// late packets before the new binding has sent anything (its first packet is still to come)
+				for k := r.Pick(0, 1, 2); k > 0; k-- {
+					ops = append(ops, staleOp(s.ssrc, s.seq+k, (s.ts+k*s.tsStep)%(1<<32)))
+				}
+				if r.Chance(1, 3) {
+					ops = append(ops, fmt.Sprintf("tick dt=%d", dts[r.Intn(len(dts))]))
+				}
+				if r.Chance(1, 3) { // the new binding starts its own numbering
+					s.seq, s.ts = r.Intn(65536), int(r.U64()%(1<<32))
+				}
+			}
 		}
 	}
 	ops = append(ops, fmt.Sprintf("tick dt=%d", dts[r.Intn(len(dts))]))
